@@ -166,13 +166,20 @@ func (sr *StyleResolver) buildInheritanceChain(styleName string) []string {
 	current := styleName
 	for current != "" && !visited[current] {
 		visited[current] = true
-		chain = append([]string{current}, chain...) // Prepend
+		chain = append(chain, current) // derived first; reversed below
 
 		if def, ok := sr.styles[current]; ok {
 			current = def.ParentStyleName
 		} else {
 			break
 		}
+	}
+
+	// Base first. (Prepending each ancestor instead copied the chain once per
+	// ancestor: resolving the styles of a long parent-style chain was quadratic per
+	// style and allocated gigabytes for a chain of a few thousand styles.)
+	for i, j := 0, len(chain)-1; i < j; i, j = i+1, j-1 {
+		chain[i], chain[j] = chain[j], chain[i]
 	}
 
 	return chain
